@@ -197,4 +197,19 @@ META = {
         "level_note": "trusted: vf/sched/coop.py quiescence detection; the explicit bound is generous by construction",
         "technique": "controlled-schedule runtime monitoring with quiescence detection (park-the-consumer probe), conservation/bound monitors on mailbox occupancy and producer advances",
     },
+    "C04": {
+        "level_text": (
+            "For 18 configurations (row-wise / multi-output / overlap-window graph x single-thread / threaded "
+            "processor x serial / thread-pool saving x rechunk on/off) the file-system event sequence of a "
+            "fault-free make is recorded through an audit hook; then the run is repeated once per mutating event "
+            "with an OSError injected at that event (also on pool worker threads), once per event with the "
+            "process killed just before it (forked child), and per chunk file with the write stopping half way "
+            "(exception and death). After each, a fresh context must see only complete, correct data as stored "
+            "and refuse everything else; an identical retry without cleanup must succeed and store correct "
+            "data (sampled second fault during the retry); a faulted call that returned normally must really "
+            "have saved its outputs."
+        ),
+        "level_note": "trusted: audit-hook tracer (sees Python-level file operations), POSIX rename atomicity, no lost page-cache model",
+        "technique": "fault enumeration over the recorded file-system event trace (exception / process death / torn write at every event) + fresh-context state oracle + retry",
+    },
 }
